@@ -6,6 +6,8 @@
 #include "util/thread_pool.hh"
 #include "util/stream/chain.hh"
 #include "util/stream/stream.hh"
+#include "util/stream/io.hh"
+#include "util/file.hh"
 #include "util/stream/config.hh"
 
 #include <boost/thread/thread.hpp>
@@ -418,9 +420,21 @@ struct StreamSink {
   }
 };
 
-std::string do_chain(std::istringstream &in, bool streams, bool fill_first = false) {
+std::string do_chain(std::istringstream &in, bool streams, bool fill_first = false, bool io = false) {
   std::size_t blocks, per; std::string stages; uint32_t n; uint64_t seed;
   in >> blocks >> per >> stages >> n >> seed;
+  // CHAINIO: the real file workers of util/stream/io.hh as first / last stage: src in {read, pread, link, stream}, sink in {war
+  // (WriteAndRecycle), write (Write >> kRecycle), pwrite (PWrite >> kRecycle), link, stream}; data goes through temporary files
+  std::string src_kind = streams ? "stream" : "link", sink_kind = streams ? "stream" : "link";
+  if (io) in >> src_kind >> sink_kind;
+  util::scoped_fd in_file, out_file;
+  if (src_kind == "read" || src_kind == "pread") {
+    in_file.reset(util::MakeTemp("/var/tmp/c17io"));
+    std::vector<uint32_t> data(n); for (uint32_t i = 0; i < n; ++i) data[i] = i + 1;
+    if (n) util::WriteOrThrow(in_file.get(), &data[0], n * sizeof(uint32_t));
+    util::SeekOrThrow(in_file.get(), 0);
+  }
+  if (sink_kind == "war" || sink_kind == "write" || sink_kind == "pwrite") out_file.reset(util::MakeTemp("/var/tmp/c17io"));
   Scheduler::Get().Reset(0);
   Scheduler::Get().SetJitter(seed);
   Storm storm_on(seed % 3 != 0);
@@ -444,7 +458,9 @@ std::string do_chain(std::istringstream &in, bool streams, bool fill_first = fal
         parked = (filler_tid.load() && procstate::thread_parked((pid_t)filler_tid.load())) ? parked + 1 : 0;
       }
       src_state = filled.load() ? "done" : "parked";
-    } else if (streams) { StreamSource src; src.n = n; chain >> src; } else { Source src; src.n = n; chain >> src; }
+    } else if (src_kind == "read") chain >> util::stream::Read(in_file.get());
+    else if (src_kind == "pread") chain >> util::stream::PRead(in_file.get());
+    else if (src_kind == "stream") { StreamSource src; src.n = n; chain >> src; } else { Source src; src.n = n; chain >> src; }
     if (stages != "-") {
       std::vector<std::string> f = split(stages, ',');
       for (size_t i = 0; i < f.size(); ++i) {
@@ -454,10 +470,20 @@ std::string do_chain(std::istringstream &in, bool streams, bool fill_first = fal
         chain >> s;
       }
     }
-    if (streams) { StreamSink sink; sink.out = &out; sink.limit = (std::size_t)n + 16; chain >> sink >> util::stream::kRecycle; }
+    if (sink_kind == "war") chain >> util::stream::WriteAndRecycle(out_file.get());
+    else if (sink_kind == "write") chain >> util::stream::Write(out_file.get()) >> util::stream::kRecycle;
+    else if (sink_kind == "pwrite") chain >> util::stream::PWrite(out_file.get()) >> util::stream::kRecycle;
+    else if (sink_kind == "stream") { StreamSink sink; sink.out = &out; sink.limit = (std::size_t)n + 16; chain >> sink >> util::stream::kRecycle; }
     else { Sink sink; sink.out = &out; sink.blocks = &seen; chain >> sink >> util::stream::kRecycle; }
     chain.Wait(true);
     if (filler.joinable()) filler.join();
+  }
+  if (out_file.get() != -1) {
+    uint64_t size = util::SizeOrThrow(out_file.get());
+    out.resize(size / sizeof(uint32_t));
+    util::SeekOrThrow(out_file.get(), 0);
+    if (size) util::ReadOrThrow(out_file.get(), &out[0], out.size() * sizeof(uint32_t));
+    if (size % sizeof(uint32_t)) out.push_back(0xffffffffu);     // a torn entry shows up as an extra record
   }
   Scheduler::Get().SetJitter(0);
   std::sort(seen.begin(), seen.end()); seen.erase(std::unique(seen.begin(), seen.end()), seen.end());
@@ -712,6 +738,7 @@ int main() {
         if (kind == "PCQ") res = do_pcq(in);
         else if (kind == "CHAIN") res = do_chain(in, false);
         else if (kind == "CHAINS") res = do_chain(in, true);
+        else if (kind == "CHAINIO") res = do_chain(in, false, false, true);
         else if (kind == "CHAINF") res = do_chain(in, false, true);
         else if (kind == "CHAINFS") res = do_chain(in, true, true);
         else if (kind == "SIG") res = do_sig(in);
